@@ -15,13 +15,20 @@ pub struct Observed {
 }
 
 pub fn observe(src: &str) -> Result<Observed, Outcome> {
+    observe_on(src, true)
+}
+
+/// `fresh`: run on a freshly spawned thread (empty thread-local identifier table); needed where the
+/// order in which identifiers were first seen could reach the output (keyword arguments)
+pub fn observe_on(src: &str, fresh: bool) -> Result<Observed, Outcome> {
     let src = src.to_string();
-    let (o, logs) = fresh_thread(move || {
+    let run = move || {
         let lg = CollectLogger::new();
         let cfg = Cfg { quiet: false, ..Cfg::scss() };
         let o = compile_env(&src, &cfg, &Env { fs: &grass_compiler::NullFs, logger: &lg });
         (o, lg.take())
-    });
+    };
+    let (o, logs) = if fresh { fresh_thread(run) } else { run() };
     match &o {
         Outcome::Ok(c) => {
             let mut probes = Vec::new();
@@ -42,9 +49,13 @@ pub fn observe(src: &str) -> Result<Observed, Outcome> {
 
 /// compare one program; returns a description of the first difference
 pub fn compare(prog: &[S]) -> (Option<String>, bool, String) {
+    compare_on(prog, true)
+}
+
+pub fn compare_on(prog: &[S], fresh: bool) -> (Option<String>, bool, String) {
     let (src, lines) = print_program(prog);
     let reference = Interp::run(prog);
-    let got = observe(&src);
+    let got = observe_on(&src, fresh);
     match (&reference, &got) {
         (Err(e), _) if e.0.starts_with("UNSPECIFIED") => (None, false, src),
         (Err(_), Err(Outcome::Err(_))) => (None, false, src),
@@ -569,8 +580,10 @@ fn operator_programs(ctx: &Ctx) -> Vec<(Vec<S>, E)> {
             }
         }
     }
-    if ctx.thorough() {
-        let tiny: Vec<E> = vec![i(1), i(2), E::Bool(false)];
+    {
+        // all five shapes of 3-operator trees (the minimal-parentheses spelling of each is a flat or
+        // partly parenthesised chain whose natural parse must be that tree)
+        let tiny: Vec<E> = if ctx.thorough() { vec![i(1), i(2), E::Bool(false), E::Str("s".into())] } else { vec![i(1), i(2), E::Bool(false)] };
         for o1 in ops2 {
             for o2 in ops2 {
                 for o3 in ops2 {
@@ -579,6 +592,8 @@ fn operator_programs(ctx: &Ctx) -> Vec<(Vec<S>, E)> {
                             exprs.push(b(o3, b(o2, b(o1, a.clone(), c.clone()), i(3)), i(2)));
                             exprs.push(b(o1, a.clone(), b(o2, c.clone(), b(o3, i(3), i(2)))));
                             exprs.push(b(o2, b(o1, a.clone(), c.clone()), b(o3, i(3), i(2))));
+                            exprs.push(b(o3, b(o1, a.clone(), b(o2, c.clone(), i(3))), i(2)));
+                            exprs.push(b(o1, a.clone(), b(o3, b(o2, c.clone(), i(3)), i(2))));
                             exprs.push(E::Not(Box::new(b(o2, b(o1, a.clone(), c.clone()), i(3)))));
                         }
                     }
@@ -604,13 +619,14 @@ fn operator_programs(ctx: &Ctx) -> Vec<(Vec<S>, E)> {
 }
 
 fn run_space(ctx: &Ctx, sub: &'static str, progs: &[Vec<S>], bound: &str) {
+    let fresh = sub == "callables";
     par(
         ctx,
         sub,
         progs.len() as u64,
         |i| json!({"program": print_program(&progs[i as usize]).0}),
         |i, l| {
-            let (diff, produced_values, src) = compare(&progs[i as usize]);
+            let (diff, produced_values, src) = compare_on(&progs[i as usize], fresh);
             l.evals += 1;
             l.validated += 1;
             l.outcome(digest_str(&src));
@@ -650,7 +666,7 @@ pub fn run(ctx: &Ctx) {
         |i| json!({"expr": op[i as usize].1.scss()}),
         |i, l| {
             let (prog, e) = &op[i as usize];
-            let (diff, ok, src) = compare(prog);
+            let (diff, ok, src) = compare_on(prog, false);
             l.evals += 1;
             l.validated += 1;
             l.outcome(digest_str(&src));
@@ -679,7 +695,7 @@ pub fn run(ctx: &Ctx) {
             }
         },
     );
-    ctx.bound(sub, "all binary expressions over 12 operators x 9x9 leaves, unary not/minus, all 2-operator trees (both associations) over 8 operators x 5^3 leaves (thorough: 3-operator trees), each against the reference and against its fully parenthesised spelling; and/or short-circuit observed through a logging function", true);
+    ctx.bound(sub, "all binary expressions over 12 operators x 9x9 leaves, unary not/minus, all 2-operator trees (both associations) over 8 operators x 5^3 leaves, all five shapes of 3-operator trees over 8^3 operators x 3^2 (thorough 4^2) leaves, each against the reference and against its fully parenthesised spelling; and/or short-circuit observed through a logging function", true);
     ctx.sample(sub, json!({"expr": "1 + 2 * 3 == 7 and not false"}));
     ctx.assume("the reference interpreter (models/interp.rs) implements DESIGN A.1 and is part of the trusted base; values are restricted to integers, short strings, booleans, null, flat lists and maps whose inspect() form is unambiguous");
 }
